@@ -396,7 +396,30 @@ func (g *docGen) figure() {
 		}
 	}
 	g.w("</figure>\n")
+	if g.r2 != nil && g.r2.P(1, 4) {
+		// responsive images as lazy-loading scripts leave them: the address list (1 to 8 candidates) on the
+		// container itself and/or on its sources, under one of the usual data-* names, site-wide the same list
+		g.f("lazy-container")
+		attr := Pick(g.r2, []string{"data-srcset", "datasrcset", "data-src", "data-original", "srcset"})
+		k := g.r2.Range(1, 8)
+		var list []string
+		for i := 0; i < k; i++ {
+			list = append(list, fmt.Sprintf("/img/resp-%d.jpg %dw", i, 320*(i+1)))
+		}
+		cont := Pick(g.r2, []string{"picture", "picture", "figure", "div", "video"})
+		g.wf(`<%s %s="%s">`, cont, attr, strings.Join(list, ", "))
+		for i := 0; i < g.r2.Range(0, 3); i++ {
+			g.wf(`<source %s="/img/src-%d-%d.webp"%s>`, Pick(g.r2, []string{"srcset", "data-srcset", "src"}), g.tok, i, Pick(g.r2, []string{"", ` type="image/webp"`, ` media="(min-width: 600px)"`}))
+		}
+		if g.r2.P(2, 3) {
+			g.wf(`<img %s="/img/resp-fallback.jpg" alt="%s">`, Pick(g.r2, []string{"src", "data-src", "data-original"}), g.word2())
+		}
+		g.wf("</%s>\n", cont)
+	}
 }
+
+// word2: a word drawn from the second stream (for decisions added later)
+func (g *docGen) word2() string { return Pick(g.r2, latinStems) }
 
 func (g *docGen) embed() {
 	switch g.r.Intn(7) {
@@ -581,7 +604,9 @@ func (g *docGen) pager(host string) string {
 		mk = func(i int) string { return fmt.Sprintf("%s/list?page=%d&size=%d", base, i, i*10) }
 	case 6:
 		g.f("pager-calendar")
-		mk = func(i int) string { return fmt.Sprintf("%s/2014/0%d/%d", base, (i%9)+1, i) }
+		// an archive address: year, month, then the page number as a path component of its own
+		yr, mon := []int{2014, 1999, 2031, 2001}[n%4], (cur+n)%12+1
+		mk = func(i int) string { return fmt.Sprintf("%s/%d/%02d/%d", base, yr, mon, i) }
 	case 7:
 		g.f("pager-first-no-param")
 		mk = func(i int) string {
